@@ -38,7 +38,7 @@ def main():
     out = ["# Seeded changes and the verdict of the registered check",
            "",
            "Written by `tools/seedtable.py` from `seeded/*/meta.json` (each written by `tools/seedtest.py`).  `-1`/`-2`: first wave; `-3`/`-4`: second wave",
-           "(authors told to avoid the ideas of the first); `-5`..`-12`: waves 3 to 6.  Every change passes the 227 existing tests and was demonstrated by its author's script.",
+           "(authors told to avoid the ideas of the first); `-5`..`-20`: waves 3 to 10 (two per wave; later authors were given all earlier ideas of their property).  Every change passes the 227 existing tests and was demonstrated by its author's script.",
            "",
            f"**{tot} changes, {det} reported as VIOLATION, {inp} of them with a concrete failing input.**",
            "",
